@@ -297,3 +297,19 @@ pub fn count_blocks(bytes: &[u8]) -> usize {
     }
     n
 }
+
+/// largest stored (compressed) block length in a file, from a walk of the length prefixes
+pub fn max_stored_block(bytes: &[u8]) -> u64 {
+    let Some(t) = vlib::fmt::parse_trailer(bytes) else { return 0 };
+    let limit = bytes.len() - t.size();
+    let mut off = 0usize;
+    let mut m = 0u64;
+    while off + 8 <= limit {
+        let mut a = [0u8; 8];
+        a.copy_from_slice(&bytes[off..off + 8]);
+        let l = u64::from_be_bytes(a);
+        m = m.max(l);
+        off = off.saturating_add(8).saturating_add(l as usize);
+    }
+    m
+}
